@@ -99,19 +99,23 @@ type SourcePlan struct {
 	Fail        bool   `json:"fail,omitempty"`
 	FailAt      int    `json:"fail_at,omitempty"` // byte offset at which the device fails
 	WithData    bool   `json:"with_data,omitempty"`
+	// Once: the failure is transient - the error is returned bare exactly once
+	// at FailAt, afterwards the source carries on from that offset.
+	Once bool `json:"once,omitempty"`
 }
 
 // Source is a fragmenting, fault-injecting io.Reader over a byte image.
 type Source struct {
-	Plan   SourcePlan
-	img    []byte
-	off    int
-	rng    *sim.Rng
-	failed bool
-	Err    *InjectedError
-	Calls  int // Read calls with len(p) > 0
-	Empty  int // of those, calls that returned no data
-	Fired  int
+	Plan     SourcePlan
+	img      []byte
+	off      int
+	rng      *sim.Rng
+	failed   bool
+	onceDone bool
+	Err      *InjectedError
+	Calls    int // Read calls with len(p) > 0
+	Empty    int // of those, calls that returned no data
+	Fired    int
 	// BareFired counts calls that returned the error without any data.
 	BareFired int
 	EOFs      int
@@ -142,12 +146,19 @@ func (s *Source) Read(p []byte) (int, error) {
 		return 0, s.Err
 	}
 	end := len(s.img)
-	if s.Plan.Fail && s.Plan.FailAt < end {
+	failing := s.Plan.Fail && !(s.Plan.Once && s.onceDone)
+	if failing && s.Plan.FailAt < end {
 		end = s.Plan.FailAt
 	}
 	if s.off >= end {
 		s.Empty++
-		if s.Plan.Fail && s.Plan.FailAt <= len(s.img) {
+		if failing && s.Plan.FailAt <= len(s.img) {
+			if s.Plan.Once {
+				s.onceDone = true
+				s.Fired++
+				s.BareFired++
+				return 0, s.Err
+			}
 			s.failed = true
 			s.Fired++
 			s.BareFired++
@@ -182,8 +193,8 @@ func (s *Source) Read(p []byte) (int, error) {
 	copy(p, s.img[s.off:s.off+n])
 	s.off += n
 	if s.off == end {
-		if s.Plan.Fail && s.Plan.FailAt <= len(s.img) {
-			if s.Plan.WithData {
+		if failing && s.Plan.FailAt <= len(s.img) {
+			if s.Plan.WithData && !s.Plan.Once {
 				s.failed = true
 				s.Fired++
 				return n, s.Err
